@@ -174,6 +174,8 @@ fn table() -> Vec<W> {
             let mut h = MsgHdrBorrow::create_recv(&mut io, None);
             count(n::recvmsg(fd(3), &mut h, 0))
         }),
+        // no error channel: only "the kernel's value unchanged, one kernel entry per invocation"
+        w!("get_pid", Pid, "GETPID", Dec0::Ok(Some(p::get_pid() as u32 as u64))),
         w!("fork", Pid, "FORK", val(unsafe { p::fork() })),
         w!("clone", Pid, "CLONE", val(unsafe { p::clone(&CloneArgs::new(CloneFlags::empty())) })),
         w!("clone3", U64, "CLONE3", match unsafe { p::clone3(&mut Clone3Args::new(CloneFlags::empty())) } {
@@ -441,7 +443,7 @@ impl Check for C09 {
     }
     fn assumptions(&self) -> Vec<String> {
         vec![
-            "excluded: exit (never returns), success values of execve (success does not return), get_pid/clock_get_real_time/clock_get_monotonic_time (infallible signatures: nothing to decode), composites (setup_io_uring: C12/C18)".into(),
+            "excluded: exit (never returns), success values of execve (success does not return), the errno sweep of get_pid and all of clock_get_real_time/clock_get_monotonic_time (infallible signatures: no error to decode), composites (setup_io_uring: C12/C18)".into(),
             "fd/pid classes are forced only up to i32::MAX (kernel contract)".into(),
             "out-parameters of a forced success come from fixtures (pipe2 fds, zeroed stat/utsname/timespec/termios)".into(),
         ]
@@ -498,6 +500,10 @@ impl Check for C09 {
             };
             match part {
                 0 => {
+                    if w.name == "get_pid" {
+                        // its signature cannot carry an error: nothing to decode
+                        return;
+                    }
                     for e in 1..=4095usize {
                         let v = (-(e as isize)) as usize;
                         if w.sys == "DUP3" && e == 16 {
